@@ -198,7 +198,7 @@ theorem targetsOf_hasTrans {st : State} (ha : st.actions.size = g.nterms) {j : N
 
 /-- a kernel item of a transition's target has its dot after a symbol -/
 theorem target_kernel_dot (hg : GW g) {autos : List (Nat × Nat)} {sts : Array State} (hI : Inv g autos sts)
-    (haut : ∀ e ∈ autos, AugProd g e.2 → True) {i : Nat} {st : State} (hi : sts[i]? = some st) {X j : Nat}
+    (_haut : ∀ e ∈ autos, AugProd g e.2 → True) {i : Nat} {st : State} (hi : sts[i]? = some st) {X j : Nat}
     (ht : HasTrans g st X j) :
     ∃ sj, sts[j]? = some sj ∧ ∀ tit ∈ sj.items, isKernel tit = true → tit.dot ≠ 0 := by
   obtain ⟨t1, t2, _⟩ := hI.trans i st hi X j ht
